@@ -27,6 +27,8 @@ func exprLevel(e *Expr) int {
 		return opLevel[e.Name]
 	case "match":
 		return lvlMatch
+	case "unary":
+		return 7
 	}
 	return lvlPrimary
 }
@@ -183,6 +185,8 @@ func printExpr(e *Expr) string {
 		return PrintExpr(e.Args[0], lvlPrimary) + " " + op + " " + e.PatV.Source()
 	case "paren":
 		return "(" + printExpr(e.Args[0]) + ")"
+	case "unary":
+		return e.Name + PrintExpr(e.Args[0], lvlPrimary)
 	}
 	return fmt.Sprintf("<?%s>", e.Op)
 }
